@@ -58,7 +58,9 @@ def run_harness(dst, h, timeout):
     checks = int(m.group(2)) if m else 0
     nfail = int(m.group(1)) if m else 0
     fails = re.findall(r'Failed Checks: ([^\n]*)', out)
-    unsupported = 'unsupported' in out.lower() and not ok and not failed
+    unsupported = bool(re.search(r'not currently supported by Kani|unsupported_construct|is not supported', out))
+    if unsupported:
+        failed = False
     return dict(harness=name, bounded=h.get('bounded', False), bound=h.get('bound', ''), ok=ok, failed=failed, timeout=to,
                 checks=checks, failed_checks=nfail, failures=fails[:5], wall_s=round(wall, 1), unsupported=unsupported,
                 tail=out[-600:] if not ok else '')
@@ -66,7 +68,7 @@ def run_harness(dst, h, timeout):
 
 def run_for(pid, spec, tier, oc):
     hs = [h for h in spec.get('kani', []) if tier == 'thorough' or h.get('tier', 'quick') == 'quick']
-    if not hs:
+    if not hs or os.environ.get('VERIF_NO_KANI'):
         return []
     tmp, dst = prepare_scratch()
     try:
@@ -84,7 +86,8 @@ def run_for(pid, spec, tier, oc):
                                       message='Kani reported failed checks', site='; '.join(r['failures'])[:200], site_tags=['code'],
                                       clause=r['bound'], clause_tags=[], tree_changed=None))
         elif not r['ok']:
-            oc.undecided.append('kani harness %s: %s' % (r['harness'], 'timeout' if r['timeout'] else 'no verdict: ' + r['tail'][-200:]))
+            oc.undecided.append('kani harness %s: %s' % (r['harness'], 'timeout' if r['timeout'] else
+                                                        ('unsupported construct' if r['unsupported'] else 'no verdict: ' + r['tail'][-200:])))
         elif not r['bounded']:
             oc.obligations += r['checks']
             oc.discharged += r['checks']
